@@ -1,23 +1,33 @@
 #!/bin/bash
-# usage: mutant_test.sh <patch.diff> <ID> [<ID>...]
+# usage: mutant_test.sh <patch.diff> <ID> [<ID>...]     (env SLOT=n for parallel use, CLEAN=1 to drop the build cache)
 # Applies a patch to a scratch worktree of /repo (never /repo itself), runs the named quick
-# checks against it, prints their verdict lines, removes the worktree and its build output.
+# checks against it, prints their verdict lines, removes the worktree. The build cache of
+# the slot (/verif/.cache/mut<SLOT>) is reused between calls; CLEAN=1 removes it.
 set -u
 PATCH="$(readlink -f "$1")"; shift
-WT="$(mktemp -d /tmp/fvmut.XXXXXX)"
-rmdir "$WT"
+SLOT="${SLOT:-0}"
+WT="/tmp/fvmut-wt-$SLOT"
+git -C /repo worktree remove --force "$WT" >/dev/null 2>&1
+rm -rf "$WT"
 git -C /repo worktree add -q --detach "$WT" HEAD || exit 2
 if ! git -C "$WT" apply "$PATCH"; then echo "patch does not apply"; git -C /repo worktree remove --force "$WT"; exit 2; fi
 export FLOUNDER_REPO="$WT"
-export VERIF_DIR="$(mktemp -d /tmp/fvmut-verif.XXXXXX)"
+export VERIF_DIR="/tmp/fvmut-verif-$SLOT"
+rm -rf "$VERIF_DIR"; mkdir -p "$VERIF_DIR"
 cp /verif/known_findings.json "$VERIF_DIR/" 2>/dev/null
-export VERIF_CACHE="/verif/.cache/mut"
+export VERIF_CACHE="/verif/.cache/mut$SLOT"
 mkdir -p "$VERIF_CACHE"
+rc=0
 for id in "$@"; do
   echo "=== $id against $(basename "$PATCH") ==="
-  /verif/check "$id" --tier quick 2>&1 | grep -E "^\[|VIOLATION|KNOWN|OK property|harness error|class=" | head -12
-  echo "exit=${PIPESTATUS[0]}"
+  /verif/check "$id" --tier "${TIER:-quick}" > "$VERIF_DIR/out.txt" 2>&1
+  code=$?
+  grep -E "^\[|VIOLATION|KNOWN|OK property|harness error|class=|^error|^scenario" "$VERIF_DIR/out.txt" | cut -c1-400 | head -12
+  echo "exit=$code"
+  [ $code -ne 0 ] && rc=$code
+  if [ -n "${KEEP_REPLAYS:-}" ] && [ -d "$VERIF_DIR/replays" ]; then mkdir -p "$KEEP_REPLAYS"; cp "$VERIF_DIR"/replays/* "$KEEP_REPLAYS"/ 2>/dev/null; fi
 done
-TAG="$(echo -n "$FLOUNDER_REPO" | cksum | cut -d' ' -f1)"
-rm -rf "$VERIF_CACHE/harness-target-$TAG" "$VERIF_CACHE/real-target-$TAG" "$VERIF_CACHE"/build-*"$TAG"* "$VERIF_DIR"
+rm -rf "$VERIF_DIR"
+[ -n "${CLEAN:-}" ] && rm -rf "$VERIF_CACHE"
 git -C /repo worktree remove --force "$WT"
+exit $rc
